@@ -35,13 +35,19 @@ C12_StaleCapacity(lo, hi) ==
 \* the version validation of the old bucket (use after free with pointer-based reclaimers and node-based storage).
 OpenXget(t, c, i) == /\ H[c].e = "call" /\ H[c].t = t /\ H[c].op = "xget" /\ c < i
                      /\ \A m \in c + 1 .. i : ~(H[m].e = "ret" /\ H[m].t = t)
+\* The finding is about elements REMOVED THROUGH THE NEW BLOCK: the key the reader looks for is erased / extracted (by a call issued after the new block
+\* was published) while the reader's call is still open.  A reader that misses a key nobody removes is not this finding (seeded change c10_5).
 C10_StaleBlockRead(lo, hi) ==
   \E i \in lo .. hi :
      /\ H[i].e = "ld" /\ H[i].t # 9
      /\ \E c \in lo .. i : OpenXget(H[i].t, c, i)
      /\ \E j \in i + 1 .. hi :
           /\ H[j].e = "st" /\ H[j].a = H[i].a /\ H[j].t # H[i].t /\ H[j].fn = "vyukov_hash_map::do_grow"
-          /\ \E c \in lo .. i : OpenXget(H[i].t, c, j)
+          /\ \E c \in lo .. i :
+               /\ OpenXget(H[i].t, c, j)
+               /\ \E e \in j + 1 .. hi :
+                    /\ H[e].e = "call" /\ H[e].op \in {"erase", "extract", "it_erase"} /\ H[e].a = H[c].a /\ H[e].t # H[i].t
+                    /\ OpenXget(H[i].t, c, e)
 
 \* C10: the accessor of the (non-trivial key, managed_ptr value) storage mode acquires the node guard and then the
 \* value guard INSIDE the node (node_guard->value) before try_get_value has validated the bucket version: the first
